@@ -4,6 +4,7 @@ import (
 	"bytes"
 	stdjson "encoding/json"
 	"fmt"
+	"reflect"
 	"sort"
 	"strings"
 	"sync"
@@ -393,6 +394,26 @@ func runC20(o *Out) {
 				o.violation("C20", "Extract differs from the reference evaluation", map[string]string{"path": ps, "doc": doc, "got": got, "want": want})
 			} else {
 				o.hist("extract", "agree")
+			}
+			// Path.Get on the decoded document: never a panic; for a single selected part, that part
+			var src interface{}
+			if stdjson.Unmarshal([]byte(doc), &src) == nil {
+				var dst interface{}
+				gerr := safeCall(func() error { return p.Get(src, &dst) })
+				o.count("get_cases", 1)
+				if gerr != nil && strings.HasPrefix(gerr.Error(), "PANIC") {
+					o.violation("C20", "Path.Get panicked", map[string]string{"path": ps, "doc": doc, "panic": gerr.Error()})
+				} else if gerr == nil && len(sel) == 1 && got == want {
+					var wantV interface{}
+					stdjson.Unmarshal([]byte(parts[0]), &wantV)
+					if strings.Contains(doc, `"a":1,"a":2`) {
+						// a decoded map holds one value per name: documents with a repeated name are left to Extract
+					} else if !reflect.DeepEqual(dst, wantV) {
+						o.violation("C20", "Path.Get returns something else than the selected part", map[string]string{"path": ps, "doc": doc, "got": fmt.Sprintf("%#v", dst), "want": parts[0]})
+					} else {
+						o.hist("get", "agree")
+					}
+				}
 			}
 			// purity: the same Path again, after a failing document, and PathString unchanged
 			before := p.PathString()
